@@ -425,3 +425,47 @@ Print Assumptions C19_values_linear_spec.
 Print Assumptions C19_values_bound_spec.
 Print Assumptions C19_values_small.
 Print Assumptions C19_values_linear_exact.
+
+(* ---- round 5: the description a value list hands out, and the reset of a value list ----
+   mptplot/values/iterator_values.c: the conversion of the metatype to 's' hands out the text kept behind the
+   object (WITH docs/C19_values_text.diff).  A source created from that text ([ORedesc]: slot 1 :=
+   mpt_iterator_values(description of the addressed slot)) stands at the start of the SAME denoted sequence,
+   whatever position the described source is at, and the described source is not touched; the other
+   generators do not offer a description (negative code, nothing changes).  [prim_run]: every operation
+   is value / advance / reset / clone / skip, or a re-creation addressed to a slot that holds a generator
+   (text and buffer iterators hand out other texts: separator configuration / command string). *)
+Theorem C19_history_refines_desc :
+  forall (rnd : Q -> fv) ops st cst,
+    srel rnd (fst st) (fst cst) -> srel rnd (snd st) (snd cst) -> prim_run rnd st ops = true ->
+    Forall2 omatch (mrun rnd st ops) (srun rnd cst ops).
+Proof. exact history_refines_desc. Qed.
+
+(* The reset of a value list cannot fail (both error branches of iterValueReset are unreachable: the first
+   number of the kept text was accepted at creation), and creating a source from the kept text gives exactly
+   the reset source. *)
+Theorem C19_values_reset_total :
+  forall m, inv_val m ->
+    fst (val_reset m) = 0%Z /\ mk_values (v_text m) (v_base m) = Some (snd (val_reset m)).
+Proof. exact val_reset_ok. Qed.
+
+(* "1 2" walked to its end, then described: the re-created source serves 1 again; a linear source refuses *)
+Definition ex_vals : text :=
+  {| t_bytes := [49;32;50]%N;
+     t_d := [{| IterModel.d_len := 1; d_ovf := false; d_val := Fin 1 |};
+             {| IterModel.d_len := 2; d_ovf := false; d_val := Fin 2 |};
+             {| IterModel.d_len := 1; d_ovf := false; d_val := Fin 2 |}];
+     t_u := [] |}.
+Example C19_ex_redesc :
+  mrun rnd64 (build rnd64 (PVals ex_vals 0), None)
+       [(OAdvance, false); (OAdvance, false); (OValue, false); (ORedesc, false); (OValue, true); (OMeta, false)]
+  = [OutA T_d; OutA 0; OutV VNone; OutK true; OutV (VNum 0 (Some (Fin 1)));
+     OutM {| mr_codes := [T_iter; T_d; T_s; T_s; BadType; T_iter; T_iter; 0]%Z; mr_fmt := [134]%N;
+             mr_vec := None; mr_str := MStr [49;32;50]%N |}] /\
+  prim_run rnd64 (build rnd64 (PVals ex_vals 0), None)
+       [(OAdvance, false); (OAdvance, false); (OValue, false); (ORedesc, false); (OValue, true)] = true /\
+  mrun rnd64 (Some (SLin ex_lin), None) [(ORedesc, false)] = [OutC BadType] /\
+  srun rnd64 (Some (abs (SLin ex_lin)), None) [(ORedesc, false)] = [SoA ARefused].
+Proof. vm_compute. repeat split; reflexivity. Qed.
+
+Print Assumptions C19_history_refines_desc.
+Print Assumptions C19_values_reset_total.
